@@ -15,7 +15,7 @@ CLAIMS = {
                 "BurstForwarder.forward_msg is reached exactly under {peer is not sender, peer.running, peer Rx freq(FN) == "
                 "sender Tx freq(FN)}, once per peer, over the full list; frequency resolvers return the fixed value iff no "
                 "hopping else element 0/1 of resolve(fn); SETFH builds (Rx,Tx) pairs in documented order; non-running "
-                "transceivers do not transmit; every transceiver ticks; only the forwarder delivers. The list object handed to the forwarder stays the registration list: no owner attribute on the path to it is rebound by code that can run after the hand-over (R6); SETFH pairing is also folded for non-monotone witness channel lists. The getters are decided by folding them over {hopping, not hopping} with opaque frequencies; enable_fh over both outcomes of the HoppingParams constructor (a refused SETFH leaves the configuration in use). R3's dispatcher clause is decided by folding Application.clck_handler for two ticks with three registered transceivers as recording oracles (each ticks once per frame with the forwarder and the frame number). R8 also folds Transceiver.enable_fh() itself with modelled objects: parameters differing in HSN, MAIO, one channel or the channel order end up installed.",
+                "transceivers do not transmit; every transceiver ticks; only the forwarder delivers. The list object handed to the forwarder stays the registration list: no owner attribute on the path to it is rebound by code that can run after the hand-over (R6); SETFH pairing is also folded for non-monotone witness channel lists. The getters are decided by folding them over {hopping, not hopping} with opaque frequencies; enable_fh over both outcomes of the HoppingParams constructor (a refused SETFH leaves the configuration in use). R3's dispatcher clause is decided by folding Application.clck_handler for two ticks with three registered transceivers as recording oracles (each ticks once per frame with the forwarder and the frame number). R8 also folds Transceiver.enable_fh() itself with modelled objects: parameters differing in HSN, MAIO, one channel or the channel order end up installed. R2 includes SETFH with 33 and 64 channel pairs; the tick dispatcher is folded for tick() results None / 0 / 1 / True.",
         "note": TB + "Not decided: correctness of HoppingParams.resolve (C07), what the recipient does after delivery (C10, C18).",
     },
     "C03": {
@@ -24,7 +24,7 @@ CLAIMS = {
                 "_tx_queue_lock (read and replace in one critical section); only append/clear/clck_tick write it; an arrival is "
                 "enqueued exactly once iff parsed, version-matched and running; the tick classifier sends each queued message to "
                 "exactly one of emit (FN equal) / stale (modular past) / wait (modular future) under every ordering incl. the "
-                "hyperframe wrap; each due burst is forwarded once, each stale one logged; power-off clears every selected queue. Only the power-off handler may discard the queue (who-may-call over tx_queue_clear). R3 is decided by folding clck_tick() on witness queues around the hyperframe wrap (sent bursts with their own frame numbers, what stays queued, one report per passed burst); the partition-loop table is a structural record whose critical-section and stale-report clauses stay real obligations.",
+                "hyperframe wrap; each due burst is forwarded once, each stale one logged; power-off clears every selected queue. Only the power-off handler may discard the queue (who-may-call over tx_queue_clear). R3 is decided by folding clck_tick() on witness queues around the hyperframe wrap (sent bursts with their own frame numbers, what stays queued, one report per passed burst); the partition-loop table is a structural record whose critical-section and stale-report clauses stay real obligations. R2 also folds tx_queue_append / tx_queue_clear on witness queues (same frame and timeslot queued once and twice): everything queued stays as it was and the new burst is queued as well.",
         "note": TB + "Not decided: exactly-once over all histories as such (induction over these premises is argued in DESIGN.md), fairness of the clock thread.",
     },
     "C13": {
@@ -33,7 +33,7 @@ CLAIMS = {
                 "field values incl. None) accepted by validate() equals the protocol ranges of spec/ranges.json exactly (both "
                 "inclusions, per field and as a whole); every reachable rejection raises ValueError and cannot raise another class "
                 "while building its message or comparing a None field; validate() dominates every buffer write of gen_msg; send() is "
-                "unreachable from send_msg's rejection handler and nothing sends on a data interface bypassing send_msg. Validation conditions that call a pure repository function on one integer field are folded on critical points (purity of the callee checked). 'Sending' is closed over the self-calls of the interface's class family (a retry through send_msg counts). When the accepted-set extraction leaves its vocabulary, R1 is decided by folding validate() on 400 boundary witnesses (just inside / outside every range, None, foreign versions, burst lengths).",
+                "unreachable from send_msg's rejection handler and nothing sends on a data interface bypassing send_msg. Validation conditions that call a pure repository function on one integer field are folded on critical points (purity of the callee checked). 'Sending' is closed over the self-calls of the interface's class family (a retry through send_msg counts). When the accepted-set extraction leaves its vocabulary, R1 is decided by folding validate() on 400 boundary witnesses (just inside / outside every range, None, foreign versions, burst lengths). R6: for one valid message per scenario and variants in the fields validate() ignores for that kind of message (left over from an earlier use, or None), gen_msg() is folded whenever validate() accepts: it produces a datagram (a check that lives only in the encoder refuses messages that validate). The witness fold of R1 shares one evaluation session (class-level / module-level state) across all witnesses.",
         "note": TB + "Fields are assumed to hold ints or None (the property's quantifier). Validity of burst *contents* is not constrained by the statement.",
     },
     "C12": {
@@ -43,7 +43,7 @@ CLAIMS = {
                 "clock-link and generator start/stop actions equal the specified decision table over all 16 truth assignments, link "
                 "update first; POWERON succeeds iff not running and ready (ready = tuned or hopping), POWEROFF always; only parse_cmd "
                 "issues power events; interface ports are base+2*idx+{102,2}/{101,1} and base+{100,0} in UDPLink's (remote, bind) "
-                "order; children get no clock and are linked to their parent; MS does not manage children. Application.trx_def (regular expression included) is folded for witness --trx definitions with 0..3-digit child indexes (R7). The transceiver factory (append_trx / append_child_trx) is folded with the constructor as recording oracle: every keyword reaches the constructor, parents get the shared clock, children none. R1 also confines the plain tuning state (_rx_freq / _tx_freq) to the constructor and the RXTUNE / TXTUNE handler (a resolved hopping frequency must not leak into it and survive POWEROFF). R10 (lock order): on the name-resolved call graph no `with <lock>` region reaches a join() of a thread whose own code takes the same lock (POWEROFF stopping the clock generator under the queue mutex would never return). R2 also pairs the containers tx_queue_append() fills with those tx_queue_clear() empties; R5 confines writers of remote_addr / remote_port / base_port to constructors; R3 is decided by folding the clock section of power_event_handler() over its 18-row decision space and CLCKGen.stop() for its two states (the decision tables over branch atoms are structural records).",
+                "order; children get no clock and are linked to their parent; MS does not manage children. Application.trx_def (regular expression included) is folded for witness --trx definitions with 0..3-digit child indexes (R7). The transceiver factory (append_trx / append_child_trx) is folded with the constructor as recording oracle: every keyword reaches the constructor, parents get the shared clock, children none. R1 also confines the plain tuning state (_rx_freq / _tx_freq) to the constructor and the RXTUNE / TXTUNE handler (a resolved hopping frequency must not leak into it and survive POWEROFF). R10 (lock order): on the name-resolved call graph no `with <lock>` region reaches a join() of a thread whose own code takes the same lock (POWEROFF stopping the clock generator under the queue mutex would never return). R2 also pairs the containers tx_queue_append() fills with those tx_queue_clear() empties; R5 confines writers of remote_addr / remote_port / base_port to constructors; R3 is decided by folding the clock section of power_event_handler() over its 18-row decision space and CLCKGen.stop() for its two states (the decision tables over branch atoms are structural records). R6 is decided by folding Application.__init__ end to end for witness command lines (no --trx, child index 0, 2, 0 and 1, a child without parent); helpers that no call site of the toolkit can reach execute on nobody's behalf in the who-may-call rules.",
         "note": TB + "Not decided: the iff between `running` and the whole command history as such (follows from the single-writer rule and the decision tables by induction, argued not checked); trxcon's socket plan is cross-checked where cfront is available.",
     },
     "C18": {
@@ -62,7 +62,7 @@ CLAIMS = {
                 "address of the same recvfrom, with 'RSP ' + verb, status inserted at index 1, arguments, optional results + NUL, always sent; both "
                 "dispatchers return a status on every path, unknown verbs 0; the accepted (verb, argc) table equals spec/trxc.json and accepts every "
                 "command trxcon emits; handlers read only arguments their arity guarantees; SETFORMAT/MEASURE/tuning decision tables; "
-                "set_hdr_ver/pick_hdr_ver folded for all 16 versions; the control receive size covers trxcon's TRXC_BUF_SIZE. The whole receive path (handle_rx .. sendto) is folded for ten scenario datagrams / handler results: number of replies, exact reply text, destination (shape rules on send_response are only a fallback when the code does not fold); a frame number that may be None reaches the hopping resolver only for non-hopping transceivers (R7, two decision tables). R9: the negotiated header version has three writers only (constructor, set_hdr_ver, the SETFORMAT branch): who-may-write scan over the toolkit plus a fold of the command handler for every other verb with the interface on version 1. R10: accepted simulation commands store what was asked (absolute forms set, relative forms add the signed delta, SETTA unclamped), folded from a non-default state. R11: trxcon's MEASURE result handler hands on every valid channel number (0 included) and refuses only the converter's failure value.",
+                "set_hdr_ver/pick_hdr_ver folded for all 16 versions; the control receive size covers trxcon's TRXC_BUF_SIZE. The whole receive path (handle_rx .. sendto) is folded for ten scenario datagrams / handler results: number of replies, exact reply text, destination (shape rules on send_response are only a fallback when the code does not fold); a frame number that may be None reaches the hopping resolver only for non-hopping transceivers (R7, two decision tables). R9: the negotiated header version has three writers only (constructor, set_hdr_ver, the SETFORMAT branch): who-may-write scan over the toolkit plus a fold of the command handler for every other verb with the interface on version 1. R10: accepted simulation commands store what was asked (absolute forms set, relative forms add the signed delta, SETTA unclamped), folded from a non-default state. R11: trxcon's MEASURE result handler hands on every valid channel number (0 included) and refuses only the converter's failure value. R1 also folds three identical POWERON datagrams in a row on one interface (second refused by the handler, third from another peer) and unterminated command datagrams.",
         "note": TB + "Not decided: status/side effects as a function of the whole command history beyond the per-branch guard rules (POWERON/POWEROFF tables are under C12).",
     },
     "C14": {
@@ -82,7 +82,7 @@ CLAIMS = {
                 "in _worker the deadline variable starts at now(), advances by a loop-invariant tick (folds to 4.615 ms +- 1 us) each "
                 "iteration, is re-based on the clock only under the overrun test, the wait timeout is deadline - now in seconds, one tick "
                 "per iteration iff the wait expired, exit only via the breaker; start() resets the counter before the thread runs; stop() "
-                "joins and resets so start() can run again. R7: operating-system calls of the clock thread's set-up are inside a handler that catches OSError as a whole.",
+                "joins and resets so start() can run again. R7: operating-system calls of the clock thread's set-up are inside a handler that catches OSError as a whole. R1/R2 are decided by folding one tick on 168 witnesses (frame counter, period, link list, handler) and by folding the life of one generator (constructor, start, ticks, stop, start, ticks) for three (start frame, period) pairs; the statement-shape rules are recorded as structural proofs.",
         "note": TB + "Not decided: actual tick times under any handler-duration pattern (needs a clock), thread scheduling.",
     },
     "C15": {
@@ -102,7 +102,7 @@ CLAIMS = {
                 "TN in bits 2..0 of octet 0 without overlap, burst at HDR_LEN on both sides); every validated value fits its wire width; the four "
                 "256-entry soft-bit tables are mutually inverse on -127..127 and map bits to full-confidence soft bits of the matching sign; "
                 "parse_mts(gen_mts(x)) == x for all 112 valid (modulation, TSC set, TSC) combinations and NOPE, all 256 octets parse; "
-                "burst-length and legacy-padding rules give back the sent length for every encodable length. The datagram returned by gen_msg() is storage created during the call (R6: not a class/instance/module-level buffer). R7: memoising decorators are sound only over attributes never stored after construction (a per-object cached HDR_LEN is stale once parse_msg re-reads the version); the soft-bit coding on the wire and its inverse are folded over all 256 octet values. R8: gen_msg() and parse_msg() of both classes are folded end to end on 40 corner witnesses (both versions, FN 0 / max, every modulation, all-zero / all-one bursts, soft-bit extremes, NOPE, legacy padding): decoded fields = encoded fields, the message is unchanged by encoding, encoding twice gives the same octets, an in-place change of a burst element reaches the next encoding. R7 also reports one-shot iterators (generator expressions, map / filter / zip objects) bound at module or class level and read by functions.",
+                "burst-length and legacy-padding rules give back the sent length for every encodable length. The datagram returned by gen_msg() is storage created during the call (R6: not a class/instance/module-level buffer). R7: memoising decorators are sound only over attributes never stored after construction (a per-object cached HDR_LEN is stale once parse_msg re-reads the version); the soft-bit coding on the wire and its inverse are folded over all 256 octet values. R8: gen_msg() and parse_msg() of both classes are folded end to end on 40 corner witnesses (both versions, FN 0 / max, every modulation, all-zero / all-one bursts, soft-bit extremes, NOPE, legacy padding): decoded fields = encoded fields, the message is unchanged by encoding, encoding twice gives the same octets, an in-place change of a burst element reaches the next encoding. R7 also reports one-shot iterators (generator expressions, map / filter / zip objects) bound at module or class level and read by functions. R8 also folds one witness per box of (accepted set of validate() minus the protocol ranges) - the property quantifies over what the toolkit accepts -, decodes every pair of representative witnesses into ONE decoder object, and decodes every valid witness after a datagram the parser refused; R7 covers memoised module-level functions.",
         "note": TB + "Not decided: equality of every field for every concrete message (the runtime round trip itself); fields not on the wire (mod_type on v0).",
     },
     "C04": {
